@@ -73,6 +73,13 @@ def run(ctx, replay=None):
                        "AdoptSession / a connecting client. distinct_nontrivial counts single damaged variants executed on the real code")
     ctx.cov["long_truncations_undetected_measured_not_claimed"] = longtrunc
     ctx.cov["samples"] = [dict(c, p="(%d bytes)" % len(c["p"])) if "p" in c else c for c in cases[:2] + cases[-2:]]
-    ctx.cov["checker_cmd"] = "tlc MC_rugged ; verifworker rugged ; tlc RuggedJudge"
+    ctx.cov["checker_cmd"] = "tlc MC_rugged ; verifworker rugged ; tlc RuggedJudge ; verifworker run ; tlc MonitorRun"
+    if not replay:
+        # records saved by concurrently publishing goroutines of a real client (clause C15_StoredRecordValid of Monitor.tla)
+        import e_client
+        saved = dict(ctx.cov)
+        behs = e_client.behaviours(ctx, ["out", "restart"])[: (200 if ctx.tier == "quick" else 1500)]
+        e_client.execute_and_judge(ctx, binary, behs)
+        ctx.cov["samples"] = saved["samples"]
     ctx.assumptions += ["multi-byte damage is measured, not claimed (32-bit checksum)",
                         "the resend path (Load of a record damaged after adoption) is covered by the client engine (C16)"]
